@@ -226,7 +226,7 @@ def keep_complement(chk, f):
     (0..d).filter(|i| !keep.contains(i)) and as `for i in 0..d { if !keep.contains(&i) { v.push(i) } }`"""
     import iters as IT
     prog = chk.prog
-    out = {"complement": False, "range": False, "where": f.loc(), "why": "the keep.contains(..) test inside an iteration over the axes was not found", "why_range": "?"}
+    out = {"complement": False, "range": False, "unconditional": False, "why_uncond": "?", "where": f.loc(), "why": "the keep.contains(..) test inside an iteration over the axes was not found", "why_range": "?"}
     its = IT.iterations(prog, f)
     unit = [f] + prog.closures_of(f.path)
     cont = [(g, b, t) for g in unit for b, t in g.calls() if callee_is(t["callee"], "alloc::vec::Vec::<T, A>::contains", "core::slice::<impl [T]>::contains")]
@@ -269,6 +269,27 @@ def keep_complement(chk, f):
                 len(it.switches()) == 1 and not it.early_exits()
         out["complement"] = tested and ok
         out["why"] = "for i in axes { if !keep.contains(&i) { v.push(i) } }: tests the element=%s, pushes exactly the axes not contained=%s" % (tested, ok)
+    # the complement is taken whenever a keep list is given: where it starts is reached under the options' own tests (discriminants) only, not
+    # under a comparison of values (a shortcut such as `keep.len() == dimensions() => nothing to remove` trusts the list's length)
+    start = None
+    if it.parent is f and getattr(it, "bb", None) is not None:
+        start = it.bb
+    elif it.kind == "loop" and it.body is f:
+        start = it.switch_bb
+    conds = []
+    if start is not None:
+        for sb, st in f.switches():
+            s_ = an.switch_subject(f, sb)
+            dd_ = f.single_def(s_["root"]) if s_["kind"] == "value" and s_["root"] is not None else None
+            if not (dd_ and dd_[0] == "assign" and dd_[3]["k"] == "binop" and dd_[3]["op"] in ("Eq", "Ne", "Lt", "Le", "Gt", "Ge")):
+                continue
+            if it.kind == "loop" and sb in it.loop_blocks:
+                continue
+            for tgt in set(f.succ.get(sb, [])):
+                if tgt != start and an.dominated_by_edge(f, sb, tgt, start) or (tgt == start and len(set(f.succ.get(sb, []))) > 1 and all(p_ == sb for p_ in f.pred.get(start, [sb]))):
+                    conds.append(f.loc(sb))
+    out["unconditional"] = start is not None and not conds
+    out["why_uncond"] = "value comparisons deciding whether the complement is computed: %s" % (sorted(set(conds)) or ("none" if start is not None else "start of the iteration not located"))
     ch = it.chain()
     src = ch[-1][1]
     d = f.single_def(f.copy_root(src[0])) if src is not None and not src[1] else None
@@ -478,6 +499,7 @@ def check_C13(chk):
     kc = keep_complement(chk, f)
     chk.ob("C13.d", "View::run/keep->complement", kc["complement"], kc["where"], kc["why"])
     chk.ob("C13.d", "View::run/complement-over-0..dimensions", kc["range"], kc["where"], "the complement is taken over all axes 0..scs.dimensions() (%s)" % kc["why_range"])
+    chk.ob("C13.d", "View::run/complement-whenever-keep-is-given", kc["unconditional"], kc["where"], kc["why_uncond"])
     # keep arm vs remove arm: remove is passed through unchanged
     # (e) normalize divides by the sum: re-use C06.c's normalize obligation
     import rules_stat
@@ -492,5 +514,11 @@ def check_C13(chk):
     chk.obs = chk.obs[:before] + keep
     chk.rule_counts.pop("C06.c", None)
     chk.rule_counts["C13.e"] = len(keep)
+    # shared clauses: what `marginalize` computes from the axes it is handed (decided for C04), and that the file handed on between chained
+    # invocations holds nothing but the spectrum written last (C07.g)
+    import rules_num as RN_
+    import rules_io as RIO_
+    chk.borrow(lambda: (RN_.c04a(chk), RN_.c04c(chk), RN_.c04d(chk)), "C13.f", 10)
+    chk.borrow(lambda: RIO_.c07g(chk), "C13.g", 2)
     for r, n in (("C13.a", 12), ("C13.b", 9), ("C13.c", 2), ("C13.d", 2), ("C13.e", 2)):
         chk.floor(r, n)
